@@ -43,6 +43,37 @@ def check_key_runtime(cx, chk):
                       % (mir.show(e) if e else "<complex>"), cx.site(b))
 
 
+def check_state_origin(cx, chk, R="C05.key"):
+    """The key is an absolute offset only if every state descends from the one entry state: the constructor ParseState::new
+    (offset 0) is called by the entry points `parse_advanced` alone - never by rule functions, closures or runtime helpers, where
+    it would restart the offsets in the middle of the input."""
+    n = 0
+    crates = [(cx.runtime, "runtime")] + [(i.crate, i.crate.name if hasattr(i.crate, "name") else i.name.split(":")[0]) for i in cx.instances()]
+    seen = set()
+    for crate, label in crates:
+        if id(crate) in seen:
+            continue
+        seen.add(id(crate))
+        for p, f in sorted(crate.fns.items()):
+            if "mir" not in f:
+                continue
+            b = cx.body(crate, p)
+            for i, t in b.calls():
+                fn = t["func"]
+                if fn.get("indirect") or not mir.strip_generics(fn["path"]).endswith("ParseState::new"):
+                    continue
+                n += 1
+                owner = mir.strip_generics(p.split("::{closure")[0])
+                if last(owner) in ("parse_advanced",) or owner.endswith("ParseState::new"):
+                    continue
+                chk.violation(R, "state-origin %s %s" % (label.split("/")[0], short(owner)),
+                              "%s makes a parse state with ParseState::new: its offset restarts at 0 in the middle of the input, so cache keys "
+                              "(and @position ranges, error offsets) of everything parsed from it are relative while the cache is keyed by absolute "
+                              "offsets - a @memoize rule reached from there replays results of another position" % short(owner), cx.site(b, i))
+    chk.ok(R, "state-origin", {"calls_of_ParseState_new": n, "rule": "only parse_advanced entry points construct the initial state"})
+    chk.floor(R, "calls of ParseState::new in entry points", n, 20)
+
+
 def check_wrappers(cx, chk):
     """Obligations of every cached wrapper, read off its semantic summary (wrapsem.py)."""
     from . import wrapsem
@@ -146,6 +177,7 @@ def run(cx, chk):
     chk.assumptions = ["user hooks are side-effect free (stated in the property)",
                        "the rule is not part of a left-recursive cycle (stated in the property)"]
     check_key_runtime(cx, chk)
+    check_state_origin(cx, chk)
     check_wrappers(cx, chk)
     c20.check_fresh(cx, chk, "C05.fresh")
     check_frame(cx, chk)
